@@ -108,7 +108,9 @@ def check_compress(case, rec):
         return
     tol = tol_of(case, v0, d, L, mode)
     D_old = psi.bond_dims
-    ret = psi.compress(tol, mode=mode)
+    # the tolerance in its legal numeric forms (float, int 0, numpy scalar)
+    tform = (0 if case['obj']['seed'] % 2 else 0.0) if tol == 0 else (np.float64(tol) if case['obj']['seed'] % 2 else tol)
+    ret = psi.compress(tform, mode=mode)
     require(isinstance(ret, tuple) and len(ret) == 2, 'compress must return (norm, scale)')
     nrm, scale = float(np.real(ret[0])), float(np.real(ret[1]))
     require(np.isfinite(nrm) and np.isfinite(scale), 'non-finite return values', nrm=nrm, scale=scale)
